@@ -15,10 +15,10 @@ Definition outsnap := (Z * Z * bool * list Z * list (Z * bool) * bool)%type.
 
 Inductive case :=
 | SMCase (client : bool) (maxBidi maxUni : Z) (steps : list (op * res * list frame))
-         (ib iu : insnap) (ob ou : outsnap) (reset : bool).
+         (ib iu : insnap) (ob ou : outsnap) (reset : bool) (rsa : bool) (rsaIDs : list Z).
 
 Inductive obs :=
-| SMObs (outs : list (res * list frame)) (ib iu : insnap) (ob ou : outsnap) (reset : bool).
+| SMObs (outs : list (res * list frame)) (ib iu : insnap) (ob ou : outsnap) (reset : bool) (rsa : bool) (rsaIDs : list Z).
 
 Definition is_some {A} (o : option A) : bool := match o with Some _ => true | None => false end.
 Definition snap_in (m : inmap) : insnap :=
@@ -28,9 +28,9 @@ Definition snap_out (m : outmap) : outsnap :=
 
 Definition model_obs (c : case) : obs :=
   match c with
-  | SMCase client mb mu steps _ _ _ _ _ =>
+  | SMCase client mb mu steps _ _ _ _ _ _ _ =>
     let '(s, outs) := trun (init_sm client mb mu) (map (fun x => fst (fst x)) steps) in
-    SMObs outs (snap_in (s_ib s)) (snap_in (s_iu s)) (snap_out (s_ob s)) (snap_out (s_ou s)) (s_reset s)
+    SMObs outs (snap_in (s_ib s)) (snap_in (s_iu s)) (snap_out (s_ob s)) (snap_out (s_ou s)) (s_reset s) (s_rsa s) (s_rsaIDs s)
   end.
 
 Definition res_eqb (a b : res) : bool :=
@@ -69,7 +69,7 @@ Definition outsnap_eqb (a b : outsnap) : bool :=
 
 Definition check_case (c : case) : bool :=
   match c, model_obs c with
-  | SMCase _ _ _ steps ib iu ob ou rs, SMObs outs ib' iu' ob' ou' rs' =>
+  | SMCase _ _ _ steps ib iu ob ou rs ra ri, SMObs outs ib' iu' ob' ou' rs' ra' ri' =>
     list_eqb out_eqb (map (fun x => (snd (fst x), snd x)) steps) outs &&
-    insnap_eqb ib ib' && insnap_eqb iu iu' && outsnap_eqb ob ob' && outsnap_eqb ou ou' && Bool.eqb rs rs'
+    insnap_eqb ib ib' && insnap_eqb iu iu' && outsnap_eqb ob ob' && outsnap_eqb ou ou' && Bool.eqb rs rs' && Bool.eqb ra ra' && list_eqb Z.eqb ri ri'
   end.
